@@ -576,6 +576,15 @@ class StartStopSuite(SystemSuite):
                     yield mk([])
                     for g in (rng.randint(0, 1), rng.randint(2, 4)):
                         yield mk([(g, rng.randrange(n), rng.random() < 0.3, "Go")])
+        # stop-at-rounds with a course of ODD length (3.1.5 on five: nine rows): rounds comes up at handstroke for a
+        # handstroke start, so the stand is due a whole row later, before the NEXT handstroke
+        for (stage, n) in ((5, 5), (5, 6)):
+            for si in (0, 1, 3):
+                for udi in (False, True):
+                    for g in (0, 1, 2):
+                        pl = [] if udi else [(g, rng.randrange(n), False, "Go")]
+                        yield self.make(rng, stage=stage, n=n, start_index=si, udi=udi, sar=True, placements=pl,
+                                        nrows=22, method="3.1.5")
         # custom start rows and up-down-in with a backstroke start
         for _ in range(10 if tier == "quick" else 60):
             stage = rng.choice([4, 6])
